@@ -433,15 +433,20 @@ def _history_case(args):
         bad.append(f"after a warm-up in an unlimited context: {k} after {dt:.2f}s (time_limit={T})")
     _t.sleep(T + 0.1)
     k, dt = _run_case(short, 5.0, None)
-    if not k.startswith("returned"):
-        bad.append(f"harmless evaluation in a NEW context after a timed-out one: {k}")
+    if not k.startswith("returned") and not (k == "TimeLimitError" and dt >= 4.5):
+        bad.append(f"harmless evaluation in a NEW context after a timed-out one: {k} after {dt:.2f}s (time_limit=5)")
     c = Context(time_limit=1.0)
+    t1 = None
     try:
         c.eval("function rx(s) { return " + short.replace("'" + "a" * 10 + "'", "s") + " } rx('" + "a" * 10 + "')")
         _t.sleep(1.1)
+        t1 = _t.time()
         c.eval("rx('" + "a" * 10 + "')")
     except TimeLimitError:
-        bad.append("second evaluation in the SAME context (started after the first one's deadline had passed) was stopped at once")
+        # stopped BEFORE its own deadline: the deadline of the earlier evaluation was applied.  (Stopped after a full
+        # second means the machine is overloaded: inconclusive, not a violation.)
+        if t1 is not None and _t.time() - t1 < 0.9:
+            bad.append(f"second evaluation in the SAME context was stopped {_t.time() - t1:.2f}s after it started (time_limit=1.0): the deadline of the first evaluation was applied")
     except Exception as e:  # noqa
         bad.append(f"same-context history failed: {type(e).__name__}: {str(e)[:60]}")
     return name, bad
